@@ -684,11 +684,18 @@ class Exec:
             fail(call, 'call after a packet was sent')
         fn = self.w.mods[rel].method(cls, mname)
         names = self.params_of(fn)
-        if call.keywords or len(call.args) != len(names):
-            fail(call, 'inlined call must pass every parameter positionally')
+        if len(call.args) > len(names):
+            fail(call, 'too many arguments in an inlined call')
         env2 = {}
+        # Python evaluates positional arguments, then keyword arguments, each in source order
         for n, a in zip(names, call.args):
-            env2[n] = self.ev_raw(a, fr) if isinstance(a, ast.Name) else self.ev(a, fr)
+            env2[n] = self.ev(a, fr)
+        for kw in call.keywords:
+            if kw.arg is None or kw.arg not in names or kw.arg in env2:
+                fail(call, 'unsupported keyword argument in an inlined call')
+            env2[kw.arg] = self.ev(kw.value, fr)
+        if set(env2) != set(names):
+            fail(call, 'inlined call does not bind every parameter')
         fr2 = self.frame(rel, cls, env2)
         eff = self.drain()
         return self.wrap(eff, self.block(fn.body, fr2, [(rest, fr, None)] + conts))
